@@ -1179,6 +1179,54 @@ ecdsa_key_gen_le(ec_curve_p curve, uint8_t *rnd, size_t rnd_size,
 }
 
 /* Signing */
+
+/* Hash (big-endian byte string) to number: the leftmost bitlen(n) bits
+ * (X9.62-2005 7.3, SEC 1 v2 4.1.3, FIPS 186-4 6.4), whole hash if shorter.
+ * Not the first (m + 7) / 8 bytes of the field size: order may be one bit
+ * longer (secp160*, secp224k1) or not a whole number of bytes (secp521r1). */
+static inline int
+ecdsa_hash_import_be(ec_curve_p curve, bn_p e, const uint8_t *hash,
+    size_t hash_size) {
+	size_t n_bits, len;
+
+	if (NULL == curve || NULL == e || NULL == hash)
+		return (EINVAL);
+	if (EC_CURVE_ALGO_ECDSA != curve->algo) {
+		/* GOST: whole hash (size of curve), reduced mod n by caller. */
+		n_bits = (8 * EC_CURVE_CALC_BYTES(curve));
+	} else {
+		n_bits = bn_calc_bits(&curve->n);
+	}
+	len = MIN(hash_size, ((n_bits + 7) / 8));
+	BN_RET_ON_ERR(bn_import_be_bin(e, hash, len));
+	if ((8 * len) > n_bits) {
+		bn_r_shift(e, ((8 * len) - n_bits));
+	}
+	return (0);
+}
+/* Same for little-endian byte string: the most significant bytes are the
+ * last bytes. */
+static inline int
+ecdsa_hash_import_le(ec_curve_p curve, bn_p e, const uint8_t *hash,
+    size_t hash_size) {
+	size_t n_bits, len;
+
+	if (NULL == curve || NULL == e || NULL == hash)
+		return (EINVAL);
+	if (EC_CURVE_ALGO_ECDSA != curve->algo) {
+		/* GOST: whole hash (size of curve), reduced mod n by caller. */
+		n_bits = (8 * EC_CURVE_CALC_BYTES(curve));
+	} else {
+		n_bits = bn_calc_bits(&curve->n);
+	}
+	len = MIN(hash_size, ((n_bits + 7) / 8));
+	BN_RET_ON_ERR(bn_import_le_bin(e, (hash + (hash_size - len)), len));
+	if ((8 * len) > n_bits) {
+		bn_r_shift(e, ((8 * len) - n_bits));
+	}
+	return (0);
+}
+
 /* 
  * Input:
  *  curve - EC domain parameters
@@ -1287,7 +1335,7 @@ ecdsa_sign_be(ec_curve_p curve, uint8_t *hash, size_t hash_size,
 		return (EINVAL);
 	/* Calc bytes count for numbers. */
 	bytes = EC_CURVE_CALC_BYTES(curve);
-	if (rnd_size < priv_key_size || priv_key_size > bytes)
+	if (rnd_size < priv_key_size || priv_key_size > EC_CURVE_CALC_SCALAR_BYTES(curve))
 		return (EINVAL); /* Random number too short / Private key too long. */
 	/* Double size + 1 digit. */
 	bits = EC_CURVE_CALC_BITS_DBL(curve);
@@ -1296,7 +1344,7 @@ ecdsa_sign_be(ec_curve_p curve, uint8_t *hash, size_t hash_size,
 	BN_RET_ON_ERR(bn_init(&s, bits));
 	BN_RET_ON_ERR(bn_init(&d, bits));
 	/* HASH import. */
-	BN_RET_ON_ERR(bn_import_be_bin(&r, hash, MIN(hash_size, bytes)));
+	BN_RET_ON_ERR(ecdsa_hash_import_be(curve, &r, hash, hash_size));
 	/* Random number. */
 	BN_RET_ON_ERR(bn_import_be_bin(&s, rnd, MIN(rnd_size, bytes)));
 	/* Key import. */
@@ -1326,7 +1374,7 @@ ecdsa_sign_le(ec_curve_p curve, uint8_t *hash, size_t hash_size,
 		return (EINVAL);
 	/* Calc bytes count for numbers. */
 	bytes = EC_CURVE_CALC_BYTES(curve);
-	if (rnd_size < priv_key_size || priv_key_size > bytes)
+	if (rnd_size < priv_key_size || priv_key_size > EC_CURVE_CALC_SCALAR_BYTES(curve))
 		return (EINVAL); /* Random number too short / Private key too long. */
 	/* Double size + 1 digit. */
 	bits = EC_CURVE_CALC_BITS_DBL(curve);
@@ -1335,7 +1383,7 @@ ecdsa_sign_le(ec_curve_p curve, uint8_t *hash, size_t hash_size,
 	BN_RET_ON_ERR(bn_init(&s, bits));
 	BN_RET_ON_ERR(bn_init(&d, bits));
 	/* HASH import. */
-	BN_RET_ON_ERR(bn_import_le_bin(&r, hash, MIN(hash_size, bytes)));
+	BN_RET_ON_ERR(ecdsa_hash_import_le(curve, &r, hash, hash_size));
 	/* Random number. */
 	BN_RET_ON_ERR(bn_import_le_bin(&s, rnd, MIN(rnd_size, bytes)));
 	/* Key import. */
@@ -1481,7 +1529,7 @@ ecdsa_verify_be(ec_curve_p curve,
 	BN_RET_ON_ERR(ecdsa_pub_key_import_be(curve, pub_key_x, pub_key_y,
 	    pub_key_size, &Q));
 	/* Import Hash. */
-	BN_RET_ON_ERR(bn_import_be_bin(&e, hash, MIN(hash_size, bytes)));
+	BN_RET_ON_ERR(ecdsa_hash_import_be(curve, &e, hash, hash_size));
 	/* Import r.*/
 	BN_RET_ON_ERR(bn_import_be_bin(&r, sign_r, sign_size));
 	/* Import s.*/
@@ -1518,7 +1566,7 @@ ecdsa_verify_le(ec_curve_p curve,
 	BN_RET_ON_ERR(ecdsa_pub_key_import_le(curve, pub_key_x, pub_key_y,
 	    pub_key_size, &Q));
 	/* Import Hash. */
-	BN_RET_ON_ERR(bn_import_le_bin(&e, hash, MIN(hash_size, bytes)));
+	BN_RET_ON_ERR(ecdsa_hash_import_le(curve, &e, hash, hash_size));
 	/* Import r.*/
 	BN_RET_ON_ERR(bn_import_le_bin(&r, sign_r, sign_size));
 	/* Import s.*/
@@ -1658,7 +1706,7 @@ ecdsa_verify_priv_key_be(ec_curve_p curve,
 	BN_RET_ON_ERR(bn_init(&s, bits));
 	BN_RET_ON_ERR(bn_init(&d, bits));
 	/* Import Hash. */
-	BN_RET_ON_ERR(bn_import_be_bin(&e, hash, MIN(hash_size, bytes)));
+	BN_RET_ON_ERR(ecdsa_hash_import_be(curve, &e, hash, hash_size));
 	/* Import r.*/
 	BN_RET_ON_ERR(bn_import_be_bin(&r, sign_r, sign_size));
 	/* Import s.*/
@@ -1693,7 +1741,7 @@ ecdsa_verify_priv_key_le(ec_curve_p curve,
 	BN_RET_ON_ERR(bn_init(&s, bits));
 	BN_RET_ON_ERR(bn_init(&d, bits));
 	/* Import Hash. */
-	BN_RET_ON_ERR(bn_import_le_bin(&e, hash, MIN(hash_size, bytes)));
+	BN_RET_ON_ERR(ecdsa_hash_import_le(curve, &e, hash, hash_size));
 	/* Import r.*/
 	BN_RET_ON_ERR(bn_import_le_bin(&r, sign_r, sign_size));
 	/* Import s.*/
@@ -1774,7 +1822,7 @@ ecdsa_dh_be(ec_curve_p curve, int use_cofactor,
 		return (EINVAL);
 	/* Calc bytes count for numbers. */
 	bytes = EC_CURVE_CALC_BYTES(curve);
-	if (priv_key_size > bytes)
+	if (priv_key_size > EC_CURVE_CALC_SCALAR_BYTES(curve))
 		return (EINVAL); /* Private key too long. */
 	/* Double size + 1 digit. */
 	bits = EC_CURVE_CALC_BITS_DBL(curve);
@@ -1811,7 +1859,7 @@ ecdsa_dh_le(ec_curve_p curve, int use_cofactor,
 		return (EINVAL);
 	/* Calc bytes count for numbers. */
 	bytes = EC_CURVE_CALC_BYTES(curve);
-	if (priv_key_size > bytes)
+	if (priv_key_size > EC_CURVE_CALC_SCALAR_BYTES(curve))
 		return (EINVAL); /* Private key too long. */
 	/* Double size + 1 digit. */
 	bits = EC_CURVE_CALC_BITS_DBL(curve);
@@ -1860,7 +1908,7 @@ ecdsa_recover_pub_key_from_priv_key_be(ec_curve_p curve,
 		return (EINVAL);
 	/* Calc bytes count for numbers. */
 	bytes = EC_CURVE_CALC_BYTES(curve);
-	if (priv_key_size > bytes)
+	if (priv_key_size > EC_CURVE_CALC_SCALAR_BYTES(curve))
 		return (EINVAL); /* Private key too long. */
 	/* Double size + 1 digit. */
 	bits = EC_CURVE_CALC_BITS_DBL(curve);
@@ -1893,7 +1941,7 @@ ecdsa_recover_pub_key_from_priv_key_le(ec_curve_p curve,
 		return (EINVAL);
 	/* Calc bytes count for numbers. */
 	bytes = EC_CURVE_CALC_BYTES(curve);
-	if (priv_key_size > bytes)
+	if (priv_key_size > EC_CURVE_CALC_SCALAR_BYTES(curve))
 		return (EINVAL); /* Private key too long. */
 	/* Double size + 1 digit. */
 	bits = EC_CURVE_CALC_BITS_DBL(curve);
@@ -1964,7 +2012,7 @@ ecdsa_recover_pub_key_from_sign_be(ec_curve_p curve,
 		return (EINVAL);
 	/* HASH import. */
 	BN_RET_ON_ERR(bn_init(&e, bits));
-	BN_RET_ON_ERR(bn_import_be_bin(&e, hash, MIN(hash_size, bytes)));
+	BN_RET_ON_ERR(ecdsa_hash_import_be(curve, &e, hash, hash_size));
 	BN_RET_ON_ERR(bn_mod_reduce(&e, &curve->n, &curve->n_mod_rd_data));
 
 	BN_RET_ON_ERR(bn_init(&x, bits));
